@@ -114,6 +114,26 @@ pub fn run_sat(case: &Value, _seed: u64) -> Outcome {
                 o.v("C12", "sat", what, "mismatch", &feats, &text, format!("installed {:?}: got {} expected {}", installed, got, expected));
             }
         }
+        // the same field FOLDED inside its relations (a line break after the operator, in front of '(' and inside the
+        // restriction lists: layouts the lossless reader takes and the lossy one refuses) - the answer is the same
+        if text.contains('(') || text.contains('[') {
+            let folded = text.replace(" (", "\n (").replace(">= ", ">=\n ").replace("<< ", "<<\n ").replace("= ", "=\n ").replace(" !i386]", "\n !i386]").replace("<stage1 cross>", "<stage1\n cross>");
+            let f2 = vec![format!("chain{}", chain_id), "folded".to_string()];
+            match guarded("Relations::from_str", || ll::Relations::from_str(&folded)) {
+                Ok(Ok(r)) => {
+                    o.evals += 1;
+                    let got = r.satisfied_by(by_closure);
+                    if got != expected { o.v("C12", "sat", "lossless Relations::satisfied_by(closure)", "mismatch", &f2, &folded, format!("installed {:?}: got {} expected {}", installed, got, expected)); }
+                    for (k, e) in r.entries().enumerate() {
+                        let exp = case["es"][k].as_bool().unwrap_or(false);
+                        let got = e.satisfied_by(by_closure);
+                        if got != exp { o.v("C12", "entry_sat", "lossless Entry::satisfied_by", "mismatch", &f2, &folded, format!("entry {} installed {:?}: got {} expected {}", k, installed, got, exp)); }
+                    }
+                }
+                Ok(Err(e)) => o.d("folded_field_rejected", &folded, e),
+                Err(m) => o.v("C12", "sat", "Relations::from_str", "panic", &f2, &folded, m),
+            }
+        }
         if o.sample.is_null() && o.nontrivial { o.sample = json!({"field": text, "installed": installed.iter().map(|(k, v)| format!("{}={}", k, v)).collect::<Vec<_>>(), "expected": expected}); }
     }
     o
